@@ -254,7 +254,7 @@ def random_trait(rng, name="Tr", dyn_safe=False, allow_async=True, with_async_tr
         # a method that no build contains (disabled by `cfg`, or by a `cfg` that a `cfg_attr` produces): the trait, the
         # delegating impl and hand-written impls all have to agree that it does not exist
         t.ghosts = [(rng.randint(0, 3), rng.choice(GHOSTS)) for _ in range(rng.randint(1, 2))]
-    t.vis = rng.choice(["", "pub", "pub(crate)"])
+    t.vis = rng.choice(["", "pub", "pub(crate)"] * 3 + ["pub(self)", "pub(super)", "pub(in crate)"])
     t.attrs = rng.sample(TRAIT_ATTRS, rng.randint(0, 2)) if rng.random() < 0.5 else []
     if rng.random() < 0.2:
         # token-identical attributes: every `///` line is a `#[doc = ".."]` of its own (blank lines and code fences repeat)
